@@ -1,11 +1,11 @@
 # Sizing and claim for C03 (conversions are total and memory-safe)
 SPEC = {
-    "quick": {"rc_cases": 7000, "rc_procs": 12, "enum": True},
+    "quick": {"rc_cases": 10000, "rc_procs": 12, "enum": True},
     "thorough": {"rc_cases": 100000, "rc_procs": 12, "enum": True, "fuzz_secs": 240, "fuzz_workers": 12},
     "assumptions": [
         "harness/ref/ref_unicode.h is a correct reading of the tolerated/offending forms listed in C02 and of the standard encodings",
         "inputs are exact-size malloc blocks and results are read up to data()[size()], so ASan reports any access outside them; UBSan is fatal",
-        "generated inputs are at most ~1.25 Mi units; over 6000 units only outcome kind, size and terminator are judged; the < 256 Mi bound of the statement is approached only by three fixed probes in the thorough tier (expanding single-character inputs whose UTF-8 form exceeds 256 MiB), which end without a verdict when memory is short",
+        "generated inputs are at most ~1.25 Mi units; over 6000 units only outcome kind, size and terminator are judged; the < 256 Mi bound of the statement is approached only by three fixed probes (expanding single-character inputs whose UTF-8 form exceeds 256 MiB), which end without a verdict when memory is short",
         "sizeof(wchar_t)==4: the 16-bit wchar_t branches of the library are not compiled on this platform",
     ],
     "claim": {
